@@ -7,7 +7,9 @@ ALL = ["C%02d" % i for i in range(1, 21)]
 
 TRUST = ("Coq 8.16.1 kernel (+ vm_compute; no native_compute); axioms: none; hand-written Gallina model tied to /repo by "
          "a per-run correspondence check (model evaluated inside Coq on the cases the implementation ran) and a direct "
-         "property oracle on the implementation; harness and generators trusted. ")
+         "property oracle on the implementation, plus per-run digests of the functions the model transcribes "
+         "(translate/pins.py: a changed function the inputs do not expose is reported as a broken tie); harness and "
+         "generators trusted. ")
 
 CHECKS = {
     "C17": dict(
